@@ -254,6 +254,69 @@ def internal_types(ctx):
     Validator.clear_caches()
 
 
+def factory_classes(ctx):
+    """classes made by `validator_factory` (one mixin, a tuple of mixins, a namespace) and by a class statement carry the
+    same extensions: each accepts its own type and rule at every depth, the base class accepts neither"""
+    from cerberus.utils import validator_factory
+
+    class TypeMixin(object):
+        types_mapping = Validator.types_mapping.copy()
+        types_mapping['even'] = TypeDefinition('even', (int,), (bool,))
+
+    class RuleMixin(object):
+        def _validate_is_odd(self, constraint, field, value):
+            """{'type': 'boolean'}"""
+            if constraint and isinstance(value, int) and not isinstance(value, bool) and value % 2 == 0:
+                self._error(field, 'must be odd')
+
+    class Stated(TypeMixin, RuleMixin, Validator):
+        pass
+
+    made = {'class statement': Stated,
+            'factory, tuple of mixins': validator_factory('FTuple', (TypeMixin, RuleMixin)),
+            'factory, tuple of mixins (other order)': validator_factory('FTuple2', (RuleMixin, TypeMixin)),
+            'factory, one mixin + namespace': validator_factory('FOne', TypeMixin, {'_validate_is_odd': RuleMixin._validate_is_odd}),
+            'factory, namespace only': validator_factory('FNs', None, {'types_mapping': TypeMixin.types_mapping,
+                                                                      '_validate_is_odd': RuleMixin._validate_is_odd})}
+    shapes = [lambda r: {'f': r},
+              lambda r: {'f': {'type': 'dict', 'schema': {'g': r}}},
+              lambda r: {'f': {'type': 'list', 'schema': r}},
+              lambda r: {'f': {'type': 'dict', 'valuesrules': {'anyof': [r, {'type': 'string'}]}}}]
+    odd = [{'f': 3}, {'f': {'g': 3}}, {'f': [3, 5]}, {'f': {'k': 3}}]
+    even = [{'f': 4}, {'f': {'g': 4}}, {'f': [4, 6]}, {'f': {'k': 4}}]
+    noint = [{'f': 1.5}, {'f': {'g': 1.5}}, {'f': [4, 1.5]}, {'f': {'k': 1.5}}]      # the type `even` is: an int that is no bool
+    for how, cls in made.items():
+        for ext, broken in (({'type': 'even'}, False), ({'is_odd': True}, True), ({'type': 'integer', 'is_odd': True}, True)):
+            for k, shape in enumerate(shapes):
+                sch = shape(dict(ext))
+                Validator.clear_caches()
+                try:
+                    v = cls(copy.deepcopy(sch))
+                    good, wrong = (even[k], noint[k]) if not broken else (odd[k], even[k])
+                    ok = (v.validate(copy.deepcopy(good)), v.validate(copy.deepcopy(wrong)))
+                except Exception as e:
+                    ctx.fail('C16 oracle: the class made by %s rejects its own extension %r at depth %d (%s)'
+                             % (how, ext, k, type(e).__name__), {'schema': repr(sch), 'made_by': how}, detail=str(e)[:300])
+                    return
+                if ok != (True, False):
+                    ctx.fail('C16 oracle: the class made by %s applies its extension %r wrongly at depth %d: %r' % (how, ext, k, ok),
+                             {'schema': repr(sch), 'made_by': how})
+                    return
+                Validator.clear_caches()
+                try:
+                    Validator(copy.deepcopy(sch))
+                    ctx.fail('C16 oracle: the base class accepts the extension %r of the class made by %s' % (ext, how),
+                             {'schema': repr(sch), 'made_by': how})
+                    return
+                except SchemaError:
+                    pass
+                except Exception as e:
+                    ctx.fail('C16 oracle: the base class raised %s for a foreign extension' % type(e).__name__, {'schema': repr(sch)})
+                    return
+                ctx.dist('factory_classes', how)
+    Validator.clear_caches()
+
+
 def option_level(ctx):
     """an extension inside the rule set given as the validator option allow_unknown: accepted (and applied to unknown
     fields) by the class that defines it, rejected by every other class"""
@@ -295,6 +358,7 @@ def run(ctx, n):
     profiles = ['validate', 'deep', 'normalize', 'of']
     leak_after_use(ctx)
     internal_types(ctx)
+    factory_classes(ctx)
     option_level(ctx)
     with Driver() as drv:
         for i, prof, case, g in cases.stream(ctx.seed, n, profiles):
@@ -304,6 +368,7 @@ def run(ctx, n):
 
 def search(ctx, n):
     internal_types(ctx)
+    factory_classes(ctx)
     option_level(ctx)
     with Driver() as drv:
         for i, prof, case, g in cases.stream(ctx.seed + 7919, n, ['validate', 'deep', 'normalize']):
